@@ -57,6 +57,45 @@ class Interface:
         for k, v in kw.items():
             setattr(self, k, v)
 
+    def loop_touches_heap(self, node):
+        for n in ast.walk(node):
+            if isinstance(n, ast.Call):
+                for a in list(n.args) + [k.value for k in n.keywords]:
+                    if isinstance(a, ast.Name) and a.id in ('context', 'ctx', 'this'):
+                        return True
+                if isinstance(n.func, ast.Name) and n.func.id == 'Container':
+                    return True
+            if isinstance(n, (ast.Assign, ast.AugAssign)):
+                tg = n.targets if isinstance(n, ast.Assign) else [n.target]
+                for x in tg:
+                    if isinstance(x, (ast.Attribute, ast.Subscript)):
+                        return True
+        return False
+
+    def loop_frame_clauses(self, eng, st):
+        """the frame of the method under verification, as a loop invariant: the context argument differs from its entry
+        value only at '_index'; the unrelated pre-existing container is unchanged"""
+        pre = eng.loop_extra.get('pre')
+        if pre is None or 'H' not in pre.st.ghost or 'H' not in st.ghost:
+            return []
+        cname = 'context' if 'context' in pre.args else ('ctx' if 'ctx' in pre.args else None)
+        if cname is None or not isinstance(pre.args[cname], VRef):
+            return []
+        c = pre.st.get(pre.args[cname]).addr
+        H0, D0, H1, D1 = pre.st.ghost['H'], pre.st.ghost['D'], st.ghost['H'], st.ghost['D']
+        f0, f1 = t.T('Fields', 'select', (H0, c)), t.T('Fields', 'select', (H1, c))
+        d0, d1 = t.T('Keys', 'select', (D0, c)), t.T('Keys', 'select', (D1, c))
+        out = [('context-modified-only-at-_index', t.and_(
+            t.eq(f1, t.T('Fields', 'store', (f0, S('_index'), t.T(t.VAL, 'select', (f1, S('_index')))))),
+            t.eq(d1, t.T('Keys', 'store', (d0, S('_index'), t.T(t.BOOL, 'select', (d1, S('_index')))))))),
+               ('allocation-counter-grows', t.ge(st.ghost['alloc'], pre.st.ghost['alloc']))]
+        b = pre.st.ghost.get('other')
+        if b is not None:
+            out.append(('other-containers-unchanged', t.implies(t.ne(b, c), t.and_(
+                t.eq(t.T('Fields', 'select', (H1, b)), t.T('Fields', 'select', (H0, b))),
+                t.eq(t.T('Keys', 'select', (D1, b)), t.T('Keys', 'select', (D0, b)))))))
+        return out
+
     def havoc_heap(self, eng, st):
         self.H(st)
         st.ghost['H'] = fresh('H', 'Heap')
@@ -81,6 +120,12 @@ class Interface:
             return [(st, VBytes(arr, t.ZERO, ln))]
         if returns == 'sub':
             return [(st, VSub(t.app('fn_sub', t.INT, ident), 'bound'))]
+        if returns == 'nat':
+            iv, ok = eng.as_int(a0, st)
+            prelude.declare_fun('fn_nat', [t.INT, t.INT], t.INT)
+            r = t.app('fn_nat', t.INT, ident, iv if iv is not None else t.ZERO)
+            st.assume(t.ge(r, t.ZERO))
+            return [(st, VInt(r))]
         return [(st, VDyn(t.app('fn_val', t.VAL, ident, eng.to_dyn(a0, st))))]
 
     def new_map(self, eng, st, name, values):
@@ -163,7 +208,7 @@ class Interface:
     def fmt_field(self, eng, st, k):
         from .structmodel import SIZES
         fmt = eng.variant
-        if fmt is None:
+        if fmt is None or not isinstance(fmt, str):
             raise OutOfReach('FormatField needs a concrete format variant')
         if k == 'fmt':
             return VStr(S(fmt))
@@ -424,7 +469,7 @@ class Interface:
     # ================================================================= parameters (E5)
     def _param_const(self, eng, p, st):
         if p.const is None:
-            if p.pkind == 'int':
+            if p.pkind in ('int', 'modulus'):
                 p.const = VInt(t.var('const_%s' % p.name, t.INT))
             elif p.pkind == 'bool':
                 p.const = VBool(t.var('const_%s' % p.name, t.BOOL))
@@ -472,8 +517,10 @@ class Interface:
         return out
 
     def param_value(self, eng, p, H, D, c, st):
-        if p.pkind == 'int':
-            return VInt(t.app('ev_int', t.INT, p.ident, H, D, c))
+        if p.pkind in ('int', 'modulus'):
+            v = t.app('ev_int', t.INT, p.ident, H, D, c)
+            self.assume_int_domain(p, v, st)
+            return VInt(v)
         v = t.app('ev_val', t.VAL, p.ident, H, D, c)
         if p.pkind == 'bool':
             return VDyn(v)
@@ -490,11 +537,35 @@ class Interface:
         self.assume_param_domain(eng, p, v, st)
         return VDyn(v)
 
+    def assume_int_domain(self, p, v, st):
+        """documented exemption of C05: negative lengths/counts and moduli < 2 are outside the sizeof contract"""
+        if getattr(self, 'nat_params', False):
+            st.assume(t.ge(v, I(2)) if p.pkind == 'modulus' else t.ge(v, t.ZERO))
+
     def assume_param_domain(self, eng, p, v, st):
         """value domains of validly parameterised constructs (documented parameter types)"""
         if p.pkind == 'xorpad':
             # ProcessXor: 'integer or bytes'; an integer key is a byte value
             st.assume(t.implies(t.app('isint', t.BOOL, v), t.and_(t.le(t.ZERO, t.app('toint', t.INT, v)), t.lt(t.app('toint', t.INT, v), I(256)))))
+        if p.pkind == 'membername':
+            # FocusedSeq(parsebuildfrom, ...): the name selects one of the members (valid parameterisation)
+            sl = getattr(self, 'current_sublist', None)
+            if sl is not None:
+                prelude.declare_fun('member_index', [t.INT, t.VAL], t.INT)
+                w = t.app('member_index', t.INT, sl, v)
+                st.assume(t.app('(_ is VStr)', t.BOOL, v))
+                st.assume(t.and_(t.le(t.ZERO, w), t.lt(w, t.app('sl_len', t.INT, sl)), t.eq(t.app('sc_name', t.VAL, t.app('sl_at', t.INT, sl, w)), v)))
+        if p.pkind == 'unionfrom':
+            # Union(parsefrom, ...): None, an index of a member, or the name of a member (valid parameterisation)
+            sl = getattr(self, 'current_sublist', None)
+            if sl is not None:
+                prelude.declare_fun('member_index', [t.INT, t.VAL], t.INT)
+                w = t.app('member_index', t.INT, sl, v)
+                n = t.app('sl_len', t.INT, sl)
+                named = t.and_(t.app('(_ is VStr)', t.BOOL, v), t.app('truthy', t.BOOL, v), t.le(t.ZERO, w), t.lt(w, n),
+                               t.eq(t.app('sc_name', t.VAL, t.app('sl_at', t.INT, sl, w)), v))
+                indexed = t.and_(t.app('(_ is VInt)', t.BOOL, v), t.le(t.ZERO, t.app('ival', t.INT, v)), t.lt(t.app('ival', t.INT, v), n))
+                st.assume(t.or_(t.app('(_ is VNone)', t.BOOL, v), indexed, named))
         if p.pkind == 'restreamdata':
             prelude.declare_fun('is_io_BytesIO', [t.VAL], t.BOOL)
             prelude.declare_fun('is_Construct', [t.VAL], t.BOOL)
@@ -503,6 +574,8 @@ class Interface:
 
     def param_const(self, eng, p, st):
         c = self._param_const(eng, p, st)
+        if isinstance(c, VInt) and p.pkind in ('int', 'modulus'):
+            self.assume_int_domain(p, c.t, st)
         if p.pkind == 'hashable':
             st.assume(self.hashable(eng, c, st))
         if isinstance(c, VDyn):
@@ -588,7 +661,9 @@ class Interface:
             a2 = a.clone()
             ec = fresh('user_exc', t.INT)
             a2.assume(eng.exc_sub_term(ec, 'Exception'))
-            out.append((a2, Raised(VExc(ec, NONE, origin='user callable raised'))))
+            ex = VExc(ec, NONE, origin='user callable raised')
+            ex.user = True
+            out.append((a2, Raised(ex)))
             out.append((a, VDyn(fresh('user_result', t.VAL))))
         return out
 
